@@ -299,14 +299,18 @@ def run_model(lines):
     return res
 
 
-def run_cli(bin_path, cases, threads=NPROC, retry=True):
+def run_cli(bin_path, cases, threads=NPROC, retry=True, stdin_files=True):
     """cases: list of (argv list of bytes/str, stdin bytes) -> list of (status str, stdout bytes)"""
     lines = []
-    for argv, stdin in cases:
+    for k, (argv, stdin) in enumerate(cases):
         a = ",".join(hx(x) for x in argv)
-        lines.append(f"a={a} in={stdin.hex()}")
+        # how stdin is provided must not matter: a pipe, a regular file, or a regular file whose descriptor is already positioned past some
+        # earlier content (`{ read header; tuc …; } < file`) — chosen by the case's position so that a run is reproducible
+        how = ("", " sf=0", " sf=7")[(k * 2654435761 >> 7) % 3] if stdin_files else ""
+        lines.append(f"a={a} in={stdin.hex()}{how}")
+    os.makedirs(os.path.join(BUILD, "tmp"), exist_ok=True)
     p = subprocess.run([HARNESS_BIN, "cli", bin_path, str(threads)], input=("\n".join(lines) + "\n").encode(),
-                       stdout=subprocess.PIPE, stderr=subprocess.DEVNULL, env=ENV)
+                       stdout=subprocess.PIPE, stderr=subprocess.DEVNULL, env=dict(ENV, VERIF_TMP=os.path.join(BUILD, "tmp")))
     out = p.stdout.decode().split("\n")
     res = []
     for i in range(len(cases)):
@@ -317,7 +321,7 @@ def run_cli(bin_path, cases, threads=NPROC, retry=True):
     miss = [i for i, (st, _) in enumerate(res) if st == "missing"]
     if miss and retry:
         # the spawner itself lost these: once more, on their own, before anything is concluded from them
-        for i, r in zip(miss, run_cli(bin_path, [cases[i] for i in miss], threads, retry=False)):
+        for i, r in zip(miss, run_cli(bin_path, [cases[i] for i in miss], threads, retry=False, stdin_files=False)):
             res[i] = r
     return res
 
